@@ -25,6 +25,7 @@ import (
 	"github.com/bluenviron/mediamtx/internal/logger"
 	"github.com/bluenviron/mediamtx/internal/staticsources"
 	"github.com/bluenviron/mediamtx/internal/stream"
+	"github.com/bluenviron/mediamtx/internal/unit"
 	"github.com/bluenviron/mediamtx/internal/verifrt"
 )
 
@@ -67,6 +68,7 @@ type vfpProfile struct {
 	OnDemandPub bool   `json:"onDemandPub"`
 	Regex       bool   `json:"regex"`
 	Fallback    bool   `json:"fallback"`
+	AlwaysAvail bool   `json:"alwaysAvail"`
 }
 
 type vfpRun struct {
@@ -124,9 +126,58 @@ type vfpClient struct {
 	w    *vfpWorld
 	id   string
 	path defs.Path
+	// publisher: the sub-stream handle it was given, and the description it announced
+	sub  *stream.SubStream
+	desc *description.Session
+	// reader: its registration on the stream it was given
+	rmu      sync.Mutex
+	rd       *stream.Reader
+	rdStream *stream.Stream
 }
 
-func (c *vfpClient) Close()                           { c.w.log(vfpEvent{T: "close", C: c.id}) }
+// Close is called by the path loop. A real session reacts by tearing its reader down.
+func (c *vfpClient) Close() {
+	c.w.log(vfpEvent{T: "close", C: c.id})
+	go c.detach()
+}
+
+// detach removes the reader's registration from the stream (idempotent).
+func (c *vfpClient) detach() {
+	c.rmu.Lock()
+	rd, st := c.rd, c.rdStream
+	c.rd, c.rdStream = nil, nil
+	c.rmu.Unlock()
+	if rd != nil {
+		st.RemoveReader(rd)
+	}
+}
+
+// attach registers a stream reader whose callback logs which publisher's unit arrived.
+func (c *vfpClient) attach(st *stream.Stream) {
+	c.rmu.Lock()
+	defer c.rmu.Unlock()
+	if c.rd != nil && c.rdStream == st {
+		return
+	}
+	if c.rd != nil {
+		old, oldSt := c.rd, c.rdStream
+		go oldSt.RemoveReader(old)
+	}
+	rd := &stream.Reader{Parent: vfpNilLogger{}}
+	medi := st.OrigDesc.Medias[0]
+	rd.OnData(medi, medi.Formats[0], func(u *unit.Unit) error {
+		if au, ok := u.Payload.(unit.PayloadH264); ok {
+			for _, nalu := range au {
+				if len(nalu) == 3 && nalu[0] == 0x05 && nalu[1] == 0xEE {
+					c.w.log(vfpEvent{T: "data", C: c.id, V: "p" + string(rune('0'+nalu[2]))})
+				}
+			}
+		}
+		return nil
+	})
+	st.AddReader(rd)
+	c.rd, c.rdStream = rd, st
+}
 func (c *vfpClient) Log(logger.Level, string, ...any) {}
 func (c *vfpClient) APISourceDescribe() *defs.APIPathSource {
 	return &defs.APIPathSource{Type: defs.APIPathSourceTypeRTSPSession, ID: c.id}
@@ -210,6 +261,10 @@ func vfpConf(p vfpProfile) (map[string]*conf.Path, string) {
 	if p.Fallback {
 		fb := "/otherpath"
 		pc.Fallback = &fb
+	}
+	if p.AlwaysAvail {
+		pc.AlwaysAvailable = true
+		pc.AlwaysAvailableTracks = []conf.AlwaysAvailableTrack{{Codec: conf.CodecH264}}
 	}
 	if p.Regex {
 		pc.Name = "~^vf(.*)$"
@@ -417,10 +472,37 @@ func (w *vfpWorld) step(in vfpIn) vfpStep {
 				w.log(vfpEvent{T: "resp", C: in.C, V: k})
 			} else {
 				c.path = res.Path
+				c.sub = res.SubStream
+				c.desc = desc
 				w.log(vfpEvent{T: "resp", C: in.C, V: "stream", S: w.streamNo(res.SubStream.Stream)})
 			}
 			w.outstanding.Add(-1)
 		}()
+
+	case "Write":
+		// the publisher writes one unit through the handle it holds (possibly a stale one)
+		c := w.client(w.pubs, in.C)
+		if c.sub != nil {
+			medi := c.desc.Medias[0]
+			c.sub.WriteUnit(medi, medi.Formats[0], &unit.Unit{
+				PTS:     0,
+				NTP:     time.Now(),
+				Payload: unit.PayloadH264{{0x05, 0xEE, in.C[1] - '0'}},
+			})
+			// deliveries run in the readers' goroutines: wait until the event log is quiet
+			last, stable := -1, 0
+			for i := 0; i < 60 && stable < 4; i++ {
+				time.Sleep(2 * time.Millisecond)
+				w.mu.Lock()
+				n := len(w.ev)
+				w.mu.Unlock()
+				if n == last {
+					stable++
+				} else {
+					stable, last = 0, n
+				}
+			}
+		}
 
 	case "AddReader":
 		c := w.client(w.readers, in.C)
@@ -434,6 +516,7 @@ func (w *vfpWorld) step(in vfpIn) vfpStep {
 				w.log(vfpEvent{T: "resp", C: in.C, V: vfpErrKind(err)})
 			} else {
 				c.path = res.Path
+				c.attach(res.Stream)
 				w.log(vfpEvent{T: "resp", C: in.C, V: "stream", S: w.streamNo(res.Stream)})
 			}
 			w.outstanding.Add(-1)
@@ -464,6 +547,7 @@ func (w *vfpWorld) step(in vfpIn) vfpStep {
 
 	case "RemoveReader":
 		c := w.client(w.readers, in.C)
+		c.detach()
 		if c.path != nil {
 			c.path.RemoveReader(defs.PathRemoveReaderReq{Author: c})
 		}
@@ -605,19 +689,17 @@ func vfpExec(t testing.TB, r *vfpRun) {
 	w.mu.Lock()
 	pre := append([]vfpEvent{}, w.ev...)
 	w.mu.Unlock()
-	r.Steps = []vfpStep{}
-	for i, in := range r.Inputs {
+	// step 1 is the pseudo-step "Init": the events of the path's creation
+	r.Steps = []vfpStep{{In: vfpIn{A: "Init", C: "init"}, Ev: pre, Obs: vfpObs{Readers: []string{}}}}
+	if r.Steps[0].Ev == nil {
+		r.Steps[0].Ev = []vfpEvent{}
+	}
+	for _, in := range r.Inputs {
 		s := w.step(in)
-		if i == 0 && len(pre) > 0 {
-			s.Ev = append(pre, s.Ev...)
-		}
 		r.Steps = append(r.Steps, s)
 		if s.Hang {
 			break
 		}
-	}
-	if len(r.Inputs) == 0 && len(pre) > 0 {
-		r.Steps = append(r.Steps, vfpStep{In: vfpIn{A: "Init"}, Ev: pre})
 	}
 	// requests still held are answered by the shutdown; wait for them
 	r.CloseHang = !w.close()
